@@ -274,7 +274,8 @@ def tables_of(g):
 
 
 def load_history(steps, scratch, rules_dir=None, name=None):
-    """Generator over a history on ONE directory: per step (index, description of the files now, grammar or None, exception or None)."""
+    """Generator over a recorded history on ONE directory: per step (index, description of the files now, grammar or None,
+    exception or None, the History object - .dir, .load_child(step))."""
     h = History(scratch, rules_dir, name)
     for k, st in enumerate(steps):
         now = h.write(st)
